@@ -1,7 +1,7 @@
 (* C11 SDP origin keeps a fixed session id and a strictly increasing version
    (sdp.go updateSDPOrigin, called by CreateOffer / CreateAnswer).
    Statements only; proofs live in Proofs/Origin.v. *)
-From Coq Require Import List NArith.
+From Coq Require Import List NArith Arith.
 Import ListNotations.
 From Verif Require Import Common.Base Model.Origin Proofs.Origin.
 Open Scope N_scope.
@@ -22,6 +22,33 @@ Theorem c11_seq : forall d0 ds,
     hd_error outs = Some d0.
 Proof. exact seq_calls. Qed.
 Print Assumptions c11_seq.
+
+(* CreateOffer's recompute loop ("offer changed while being generated"): a
+   history of calls, each with the fresh description of its first generation
+   and those of the generations that follow a detected change; every
+   generation calls updateSDPOrigin and the last one is returned, after 128
+   detected changes the call gives up (errExcessiveRetries) and hands out
+   nothing.  Under c11_seq's premises (room below 2^64 for one version per
+   GENERATION): no call hangs; every description handed out carries the first
+   description's id; their versions strictly increase; a call with fewer than
+   128 changes hands out version  v0 + (generations run so far) - 1  and a
+   call with 128 or more hands out nothing. *)
+Theorem c11_recompute : forall d0 r0 (h : list gcall),
+  fst d0 <> 0 -> snd d0 <> 0 ->
+  snd d0 + N.of_nat (total_gens ((d0, r0) :: h)) < 2 ^ 64 ->
+  let rs := calls origin0 ((d0, r0) :: h) in
+  length rs = S (length h) /\
+  ~ In Hangs rs /\
+  Forall (fun o => fst o = fst d0) (returned rs) /\
+  strictly_increasing (map snd (returned rs)) /\
+  (r0 = [] -> hd_error rs = Some (Returned d0)) /\
+  (forall k c, nth_error ((d0, r0) :: h) k = Some c ->
+     nth_error rs k =
+     Some (if (S (length (snd c)) <=? max_retries)%nat
+           then Returned (fst d0, snd d0 + N.of_nat (total_gens (firstn (S k) ((d0, r0) :: h)) - 1))
+           else Excessive)).
+Proof. exact recompute_calls. Qed.
+Print Assumptions c11_recompute.
 
 (* any number of threads, any schedule of the atomic steps (CAS, store id,
    load id in the wait loop, add): every completed call is in the
@@ -75,6 +102,20 @@ Proof. reflexivity. Qed.
 Example c11_conc_example :
   let s := orun (oinit [(7, 100); (8, 200); (9, 300)]) [1%nat; 0%nat; 2%nat; 0%nat; 2%nat; 1%nat; 2%nat; 0%nat; 0%nat; 2%nat] in
   othreads s = [TDone 8 201; TDone 8 200; TDone 8 202].
+Proof. vm_compute. reflexivity. Qed.
+
+(* three calls; the second recomputes twice (three generations), so it hands
+   out the third version after the first call's *)
+Example c11_recompute_example :
+  calls origin0 [((7, 100), []); ((8, 200), [(9, 300); (10, 400)]); ((11, 500), [])]
+  = [Returned (7, 100); Returned (7, 103); Returned (7, 104)].
+Proof. vm_compute. reflexivity. Qed.
+
+(* 128 detected changes: the call gives up after 128 generations, the next
+   call's version is 128 further on *)
+Example c11_recompute_excessive :
+  calls origin0 [((7, 100), []); ((8, 200), repeat (1, 1) 128); ((11, 500), [])]
+  = [Returned (7, 100); Excessive; Returned (7, 229)].
 Proof. vm_compute. reflexivity. Qed.
 
 (* a fresh description with version 0 (outside pion/sdp's contract) lets the
